@@ -201,6 +201,21 @@ let show_result b = function
   | Err _ -> "err"
   | OutOfFuel -> "out-of-fuel"
 
+(* which branch of the as-is model a case takes (coverage histogram only) *)
+let asis_path op b s e a2 : string =
+  let small () = f32.f_ltb (repr_log2_est f32 word_bits b s e) (f32.f_neg (uint_log2_est f32 b)) in
+  let b2 = if Zar.equal b (zi 2) then "-b2" else "" in
+  match op with
+  | "powi" ->
+      let nbits = nb (Zar.abs a2) in
+      (if Zar.sign a2 < 0 then "powi-inverse" else "powi") ^ (if nbits <= 32 then "-n32" else if nbits <= 64 then "-n64" else "-nbig")
+  | "exp" -> "exp-scaled"
+  | "exp_m1" -> if small () then (if Zar.sign s < 0 then "expm1-series-neg" else "expm1-series-pos") else "expm1-scaled"
+  | "ln" -> if f32.f_ltb (fst (repr_log2_bounds f32 word_bits b s e)) 0.0 then "ln-sneg" ^ b2 else "ln-spos" ^ b2
+  | "ln_1p" -> if small () then (if Zar.sign s < 0 then "ln1p-series-neg" else "ln1p-series-pos") else "ln1p-scaled" ^ b2
+  | "powf" -> "powf-ln-mul-exp"
+  | _ -> "?"
+
 (* evaluation of the model under a wall-clock budget (the extracted digit count is quadratic: huge
    operands are affordable for the implementation but not here); None = not evaluated *)
 exception Budget
@@ -291,6 +306,7 @@ let judge op0 args got =
           let fid = match predicted with
             | Some w -> if w = got_txt then " asis=same" else " asis=diff"
             | None -> "" in
+          let fid = if entry = ECompute && Zar.sign s <> 0 then fid ^ " path=" ^ asis_path op b s e a2 else fid in
           let cls = (match entry with EExact _ -> "entry-exact" | ERound _ -> "entry-round" | _ -> "computed") ^ "-" ^ f ^ precnote in
           let nt = (match entry with ECompute -> true | ERound (AInexact _) -> true | _ -> false) in
           (* the result is a precision-p value *)
